@@ -42,6 +42,7 @@ type Engine struct {
 	callCtr  map[string]int
 	usedPure map[string]bool
 	qn       int
+	cardDone map[string]bool
 }
 
 type CallRec struct {
@@ -83,12 +84,14 @@ type Frame struct {
 	defers    []*ssa.Defer
 	params    []Term
 	srcNames  map[string]ssa.Value
+	srcRefs   map[string][]*ssa.DebugRef
 	parent    *Frame
 	curBlock  *ssa.BasicBlock
 	curIdx    int
 	inLoopHdr *ssa.BasicBlock
 	loopBody  map[*ssa.BasicBlock]map[*ssa.BasicBlock]bool
 	frameDone bool
+	backEdgeN map[*ssa.BasicBlock]int
 	loopEntries map[*ssa.BasicBlock]*State
 	frameTs   []modTarget
 }
@@ -116,6 +119,9 @@ func (e *Engine) comp(name, sort string) string {
 			e.vc.decl("closed:"+name, fmt.Sprintf("(assert (forall ((l Loc)) (! (=> (< (rootid l) alloc@0) (< (rootid (select %s l)) alloc@0)) :pattern ((select %s l)))))", c0, c0))
 		case sort == "(Array Loc Slice)":
 			e.vc.decl("closed:"+name, fmt.Sprintf("(assert (forall ((l Loc)) (! (=> (< (rootid l) alloc@0) (< (rootid (s_arr (select %s l))) alloc@0)) :pattern ((select %s l)))))", c0, c0))
+		case strings.HasPrefix(name, "MapDom$"):
+			ks := strings.TrimSuffix(strings.TrimPrefix(sort, "(Array Loc (Array "), " Bool))")
+			e.vc.decl("closed:"+name, fmt.Sprintf("(assert (= (select %s nil) %s))", c0, e.emptySet(ks)))
 		case strings.HasPrefix(sort, "(Array Loc (Array ") && strings.HasSuffix(sort, " Loc))"):
 			ks := strings.TrimSuffix(strings.TrimPrefix(sort, "(Array Loc (Array "), " Loc))")
 			e.vc.decl("closed:"+name, fmt.Sprintf("(assert (forall ((l Loc) (k %s)) (! (=> (< (rootid l) alloc@0) (< (rootid (select (select %s l) k)) alloc@0)) :pattern ((select (select %s l) k)))))", ks, c0, c0))
@@ -173,14 +179,20 @@ func (e *Engine) cardFn(keySort string) string {
 }
 
 // card returns the cardinality term of a key set and emits its ground axioms
-// (non-negative; zero exactly for the empty set).
+// (non-negative; positive exactly when some key is present) without array equalities.
 func (e *Engine) card(keySort string, dom Term) Term {
 	n := e.cardFn(keySort)
 	t := fmt.Sprintf("(%s %s)", n, dom)
 	if e.vc.noname == 0 {
+		w := sym("cardwit$" + strings.Trim(keySort, "|"))
+		e.vc.decl("fn:"+w, fmt.Sprintf("(declare-fun %s ((Array %s Bool)) %s)", w, keySort, keySort))
 		k := "cardfact:" + t
-		if !e.vc.declared[k] || true {
-			e.vc.assume(fmt.Sprintf("(and (>= %s 0) (= (= %s 0) (= %s %s)))", t, t, dom, e.emptySet(keySort)))
+		if !e.cardDone[k] {
+			if e.cardDone == nil {
+				e.cardDone = map[string]bool{}
+			}
+			e.cardDone[k] = true
+			e.vc.assume(fmt.Sprintf("(and (>= %s 0) (=> (> %s 0) (select %s (%s %s))) (forall ((k %s)) (! (=> (select %s k) (> %s 0)) :pattern ((select %s k)))))", t, t, dom, w, dom, keySort, dom, t, dom))
 		}
 	}
 	return t
@@ -308,7 +320,7 @@ func (e *Engine) wf(st *State, v Term, t types.Type) {
 	case "Loc":
 		e.vc.assumeIf(st.pc, fmt.Sprintf("(< (rootid %s) %s)", v, st.alloc))
 	case "Slice":
-		e.vc.assumeIf(st.pc, fmt.Sprintf("(and (< (rootid (s_arr %s)) %s) (<= 0 (s_len %s)) (<= (s_len %s) (s_cap %s)) (<= 0 (s_off %s)))", v, st.alloc, v, v, v, v))
+		e.vc.assumeIf(st.pc, fmt.Sprintf("(and (< (rootid (s_arr %s)) %s) (<= 0 (s_len %s)) (<= (s_len %s) (s_cap %s)) (<= 0 (s_off %s)) (=> (> (s_cap %s) 0) (<= 0 (rootid (s_arr %s)))))", v, st.alloc, v, v, v, v, v, v))
 	case "Int":
 		if b, ok := t.Underlying().(*types.Basic); ok && b.Info()&types.IsUnsigned != 0 {
 			e.vc.assumeIf(st.pc, fmt.Sprintf("(>= %s 0)", v))
@@ -327,11 +339,13 @@ func (e *Engine) newFrame(fn *ssa.Function, parent *Frame) *Frame {
 		fr.depth = parent.depth + 1
 	}
 	fr.srcNames = map[string]ssa.Value{}
+	fr.srcRefs = map[string][]*ssa.DebugRef{}
 	amb := map[string]bool{}
 	for _, b := range fn.Blocks {
 		for _, ins := range b.Instrs {
 			if d, ok := ins.(*ssa.DebugRef); ok && !d.IsAddr {
 				if id, ok := d.Expr.(*ast.Ident); ok {
+					fr.srcRefs[id.Name] = append(fr.srcRefs[id.Name], d)
 					if old, ok := fr.srcNames[id.Name]; ok && old != d.X {
 						amb[id.Name] = true
 					}
@@ -344,6 +358,37 @@ func (e *Engine) newFrame(fn *ssa.Function, parent *Frame) *Frame {
 		delete(fr.srcNames, n)
 	}
 	return fr
+}
+
+// srcValue resolves a source-level local name at the current point: the unique SSA value it
+// denotes; inside a loop invariant, the value its uses inside that loop denote.
+func (fr *Frame) srcValue(name string) (ssa.Value, bool) {
+	if v, ok := fr.srcNames[name]; ok {
+		return v, true
+	}
+	refs := fr.srcRefs[name]
+	if len(refs) == 0 {
+		return nil, false
+	}
+	if h := fr.inLoopHdr; h != nil {
+		var found ssa.Value
+		okc := true
+		for _, d := range refs {
+			if fr.inLoop(h, d.Block()) {
+				if _, isPhi := d.X.(*ssa.Phi); isPhi && d.X.(*ssa.Phi).Block() == h {
+					continue
+				}
+				if found != nil && found != d.X {
+					okc = false
+				}
+				found = d.X
+			}
+		}
+		if found != nil && okc {
+			return found, true
+		}
+	}
+	return nil, false
 }
 
 type unsupported string
@@ -767,6 +812,12 @@ func (fr *Frame) enterLoop(h *ssa.BasicBlock, edges []edgeIn, dry bool) *State {
 		vc.assumeIf(hst.pc, fr.evalClause(c, hst, env))
 	}
 	fr.autoRangeFacts(h, hst)
+	// automatic bound of a slice-range index: -1 <= $i < n (proved at entry and on every back edge)
+	if phi, n := rangeIndexBound(h); phi != nil {
+		nt := fr.val(n)
+		vc.oblige(fr.oblName(fmt.Sprintf("loop%d.init.auto-index", ord)), "loop-init", entry.pc, fmt.Sprintf("(and (<= (- 1) %s) (< %s %s))", entryPhi(phi), entryPhi(phi), nt), "range index within bounds")
+		vc.assumeIf(hst.pc, fmt.Sprintf("(and (<= (- 1) %s) (< %s %s))", fr.vals[phi], fr.vals[phi], nt))
+	}
 	// automatic frame invariant: what the function's modifies clause excludes stays equal to the entry heap
 	for _, c := range sortedKeys(fr.loopMods[h]) {
 		if g := fr.frameGoal(c, entry); g != "" {
@@ -802,6 +853,36 @@ func (fr *Frame) frameGoal(c string, st *State) Term {
 	return fmt.Sprintf("(forall ((%s Loc)) (! (=> %s (= (select %s %s) (select %s %s))) :pattern ((select %s %s))))", l, cond, cur, l, init, l, cur, l)
 }
 
+// rangeIndexBound recognises the go/ssa lowering of "for i := range slice": a header with
+// phi #rangeindex, next = phi+1, cond = next < n with n defined outside the loop.
+func rangeIndexBound(h *ssa.BasicBlock) (*ssa.Phi, ssa.Value) {
+	var phi *ssa.Phi
+	for _, ins := range h.Instrs {
+		if p, ok := ins.(*ssa.Phi); ok && phiName(p) == "rangeindex" {
+			phi = p
+		}
+	}
+	if phi == nil {
+		return nil, nil
+	}
+	for _, ins := range h.Instrs {
+		add, ok := ins.(*ssa.BinOp)
+		if !ok || add.Op != token.ADD || add.X != phi {
+			continue
+		}
+		for _, ins2 := range h.Instrs {
+			lt, ok := ins2.(*ssa.BinOp)
+			if ok && lt.Op == token.LSS && lt.X == add {
+				if v, isIns := lt.Y.(ssa.Instruction); isIns && v.Block() == h {
+					return nil, nil
+				}
+				return phi, lt.Y
+			}
+		}
+	}
+	return nil, nil
+}
+
 func clauseID(c *Clause, k int) string {
 	if c.Label != "" {
 		return c.Label
@@ -818,14 +899,26 @@ func (fr *Frame) backEdge(h *ssa.BasicBlock, st *State, predIdx int, dry bool) {
 	}
 	ord := fr.loopOrd[h]
 	fr.inLoopHdr = h
+	if fr.backEdgeN == nil {
+		fr.backEdgeN = map[*ssa.BasicBlock]int{}
+	}
+	fr.backEdgeN[h]++
+	edgeTag := ""
+	if n := fr.backEdgeN[h]; n > 1 {
+		edgeTag = fmt.Sprintf(".e%d", n)
+	}
 	env := fr.loopBindings(h, st, func(phi *ssa.Phi) Term { return fr.val(phi.Edges[predIdx]) })
 	for k, c := range fr.invariants(h) {
 		g := fr.evalClause(c, st, env)
-		vc.oblige(fr.oblName(fmt.Sprintf("loop%d.step.%s", ord, clauseID(c, k))), "loop-step", st.pc, g, c.Src)
+		vc.oblige(fr.oblName(fmt.Sprintf("loop%d.step.%s%s", ord, clauseID(c, k), edgeTag)), "loop-step", st.pc, g, c.Src)
+	}
+	if phi, n := rangeIndexBound(h); phi != nil {
+		v := fr.val(phi.Edges[predIdx])
+		vc.oblige(fr.oblName(fmt.Sprintf("loop%d.step.auto-index%s", ord, edgeTag)), "loop-step", st.pc, fmt.Sprintf("(and (<= (- 1) %s) (< %s %s))", v, v, fr.val(n)), "range index within bounds")
 	}
 	for _, c := range sortedKeys(fr.loopMods[h]) {
 		if g := fr.frameGoal(c, st); g != "" && g != "true" {
-			vc.oblige(fr.oblName(fmt.Sprintf("loop%d.step.frame.%s", ord, c)), "loop-step", st.pc, g, "loop frame: "+c+" unchanged outside the modifies clause")
+			vc.oblige(fr.oblName(fmt.Sprintf("loop%d.step.frame.%s%s", ord, c, edgeTag)), "loop-step", st.pc, g, "loop frame: "+c+" unchanged outside the modifies clause")
 		}
 	}
 	fr.autoRangeStep(h, st)
